@@ -28,7 +28,7 @@ def repo_path() -> str:
 
 def out_root() -> str:
     """Evidence and replays of runs against a scratch copy never overwrite those of /repo."""
-    if os.path.realpath(repo_path()) == os.path.realpath("/repo"):
+    if os.path.realpath(repo_path()) == os.path.realpath("/repo") and not os.environ.get("PENDMC_ONLY_KIND"):
         return VERIF
     d = os.path.join(VERIF, ".build", "scratch-out")
     os.makedirs(d, exist_ok=True)
@@ -117,6 +117,11 @@ def cmd_check(prop: str, tier: str) -> int:
     modname = prop.lower()
     mod = importlib.import_module(f"pendmc.props.{modname}")
     plan = list(mod.plan(tier, seed))
+    only = os.environ.get("PENDMC_ONLY_KIND")
+    if only:
+        # development aid: run only the shards of one kind (output goes to .build/scratch-out, never to /verif/evidence)
+        plan = [(cfg, [sh for sh in shards if str(sh.get("kind")) == only]) for cfg, shards in plan]
+        plan = [(cfg, shards) for cfg, shards in plan if shards]
     # the same exploration (a seed-rotated sixth / third of the first configuration's shards) in a process whose
     # ambient settings are not the defaults: first day of the week = Sunday, default locale = fr
     ambient = getattr(mod, "AMBIENT", {"ws": 6, "locale": "fr"})
